@@ -168,6 +168,8 @@ def build_harness(tags="verif", race=False, name=None):
     written to /repo) against /repo's current working tree."""
     ov = harness_overlay()
     name = name or ("h_" + re.sub(r"[^a-z0-9]+", "_", tags) + ("_race" if race else ""))
+    if REPO != "/repo":   # checks against another checkout (seeded regressions) get their own binaries
+        name += "_" + hashlib.sha1(REPO.encode()).hexdigest()[:8]
     out = os.path.join(CACHE, name)
     env = dict(GOENV)
     cmd = ["go", "build", "-overlay", ov, "-tags", tags, "-o", out]
